@@ -181,3 +181,67 @@ def unrelated_filter_sets(nodes: list[str], max_s: int, max_o: int, kinds=("name
                         for ok in kinds:
                             out.append((sk, S, ok, O))
     return out
+
+
+# ---------------------------------------------------------------------------------------------------
+# seeded larger universes (the "seeded random larger ones" of C01's quantifier): a random forest of n modules whose
+# component names mix neutral and prefix-sibling names; the import relation is concrete at random except for a
+# *window* of ordered pairs that stay symbolic (rulesym.SymArch(window=, background=)).
+
+COMPONENT_POOL = ["a", "ab", "a_b", "aa", "b", "ba", "x", "xy", "x_y", "core", "core_utils", "py", "pyx", "m", "n", "k"]
+
+
+def random_forest(rnd, n: int, max_depth: int = 4, roots: int = 2) -> list[str]:
+    nodes: list[str] = []
+    while len(nodes) < n:
+        if len([x for x in nodes if "." not in x]) < roots and (not nodes or rnd.random() < 0.25):
+            par = None
+        else:
+            cands = [x for x in nodes if x.count(".") + 1 < max_depth]
+            par = rnd.choice(cands) if cands else None
+        used = {x.rsplit(".", 1)[-1] for x in nodes if parent(x) == par}
+        free = [c for c in COMPONENT_POOL if c not in used]
+        if not free:
+            continue
+        c = rnd.choice(free)
+        nodes.append(c if par is None else f"{par}.{c}")
+    return sorted(nodes)
+
+
+def random_window(rnd, nodes: list[str], k: int, density: float = 0.15, focus: list[str] | None = None):
+    """(window, background): k symbolic ordered pairs (two thirds of them touching a ``focus`` module or one of its
+    relatives when given) and a random concrete relation over the remaining pairs."""
+    pairs = [(x, y) for x in nodes for y in nodes if x != y and parent(y) != x]
+    near = [p for p in pairs if focus and any(related(p[0], f) or related(p[1], f) for f in focus)]
+    rnd.shuffle(near)
+    win = near[: (2 * k) // 3]
+    rest = [p for p in pairs if p not in set(win)]
+    rnd.shuffle(rest)
+    win += rest[: k - len(win)]
+    ws = set(win)
+    bg = [p for p in pairs if p not in ws and rnd.random() < density]
+    return sorted(win), sorted(bg)
+
+
+def random_unrelated_spec(rnd, nodes: list[str], kinds=("named", "sub"), max_s: int = 3, max_o: int = 3):
+    """A random (s_kind, S, o_kind, O) with pairwise unrelated identifiers, or None."""
+    for _ in range(50):
+        ns, no = rnd.randint(1, max_s), rnd.randint(1, max_o)
+        order = list(nodes)
+        rnd.shuffle(order)
+        chosen: list[str] = []
+        for x in order:
+            if all(not related(x, c) for c in chosen):
+                chosen.append(x)
+            if len(chosen) == ns + no:
+                break
+        if len(chosen) < ns + no:
+            continue
+        sk, ok = rnd.choice(kinds), rnd.choice(kinds)
+        S, O = tuple(sorted(chosen[:ns])), tuple(sorted(chosen[ns:]))
+        if sk == "sub" and any(not sub(s, nodes) for s in S):
+            continue
+        if ok == "sub" and any(not sub(o, nodes) for o in O):
+            continue
+        return sk, S, ok, O
+    return None
